@@ -67,11 +67,11 @@ macro_rules! push_community_get {
 }
 //@ C03 quick timeout=900 | v2c Get of one OID (3 symbolic content octets), symbolic 3-octet community, request-id 0x123456: push_pdu == reference encoding
 push_community_get!(push_v2c_get_rid3, SnmpV2cClientSocket, 1, 0x123456i64);
-//@ C03 thorough timeout=1800 | v1 Get, same shape, request-id 0x7f
+//@ C03 thorough timeout=1800 optional | v1 Get, same shape, request-id 0x7f
 push_community_get!(push_v1_get_rid1, SnmpV1ClientSocket, 0, 0x7fi64);
-//@ C03 thorough timeout=1800 | v2c Get, request-id 0x80 (leading zero octet)
+//@ C03 thorough timeout=1800 optional | v2c Get, request-id 0x80 (leading zero octet)
 push_community_get!(push_v2c_get_rid_lz, SnmpV2cClientSocket, 1, 0x80i64);
-//@ C03 thorough timeout=1800 | v2c Get, request-id 0x7fffffff
+//@ C03 thorough timeout=1800 optional | v2c Get, request-id 0x7fffffff
 push_community_get!(push_v2c_get_rid4, SnmpV2cClientSocket, 1, 0x7fffffffi64);
 
 // ------------------------------------------------------------------------------------
